@@ -1,9 +1,12 @@
 ID = "C03"
 LEVEL = "proof"
-CONTRACT_MODULES = ["contracts.sorting", "contracts.refcount", "contracts.tasks", "contracts.tasks_proto"]
-FUNCTIONS = ["RefCount.append", "RefCount.extend", "RefCount.remove", "Manager.register", "Manager.unregister", "Manager.set_value"]
+CONTRACT_MODULES = ["contracts.sorting", "contracts.refcount", "contracts.tasks", "contracts.tasks_proto", "contracts.tasks_rebuild"]
+FUNCTIONS = ["RefCount.append", "RefCount.extend", "RefCount.remove", "Manager.register", "Manager.unregister", "Manager.set_value",
+             # the two methods that rebuild the indices from the registered tasks: indices == F(tasks) afterwards, whatever they held before
+             "Manager.register@rebuild", "Manager.refresh@rebuild", "Manager.clone", "Manager.__init__@fresh-manager"]
 # refresh rebuilds the indices from the registered tasks (C17)
-BORROW = [('C17', ['Manager.refresh'])]
+# load replaces / adds definitions through unregister + register and keeps the index invariant (C17)
+BORROW = [('C17', ['Manager.refresh', 'Manager.load'])]
 RAC = "rac/c03.py"
 RAC_BUDGET = {"quick": 60, "thorough": 900}
 RAC_MIN = {"quick": 2912, "thorough": 2912}      # fewer run-time evaluations than this = the harness skipped its work: checker broken, not "held"
@@ -14,6 +17,9 @@ TRUSTED = [
     "counting lemma: prefix count over a duplicate-free enumeration of A of membership in B equals |A n B| (lemmas/Counting.lean)",
     "rdeps_sum is a finite sum of 0/1 terms (add/remove one summand, dominates each summand, non-negative)",
     "z3 / cvc5", "Cython compiles refs.py (RefCount) faithfully",
+    "the constructor call Manager() runs Manager.__init__ on a fresh object (Manager.__init__ is proved: no tasks, empty indices, thawed)",
+    "Manager.cleanup is the identity on the abstract index state (absent == empty entry); checked at run time on supports",
+    "dict.values() enumerates the values along an arbitrary duplicate-free enumeration of the keys; dict.update: the argument's entries win",
 ]
 ASSUMPTIONS = [
     "a task's dependencies/targets sets are not mutated after registration",
@@ -21,10 +27,15 @@ ASSUMPTIONS = [
     "absent key == empty RefCount in the abstract index state (cleanup() is the identity on it)",
     "history independence = the state predicate IdxWF: indices are a function F of the registered task set only",
 ]
-BOUNDED = ["clone/refresh/verify/queries compared with a freshly built manager at run time only (length<=3/4 histories)"]
+BOUNDED = ["verify() and the query answers (_expr, tartasks, find_deps) compared with a freshly built manager at run time only (length<=3/4 histories); "
+           "clone() and refresh() are proved AND compared at run time"]
 EXPLANATION = ("class invariant IdxWF (indices == F(registered tasks), count-exact) proved preserved by the real "
                "Manager.register and Manager.unregister, over the proved contracts of RefCount.append/extend/remove; Manager.set_value "
-               "replaces a definition by unregister + register and schedules from the UPDATED indices (a removed task is not run)")
+               "replaces a definition by unregister + register and schedules from the UPDATED indices (a removed task is not run); "
+               "refresh() (thawed) and clone() re-register task after task into emptied / fresh indices: loop invariant indices == F(ids "
+               "registered so far) over Manager.register@rebuild (the same real body of register, proved for a ghost set of registered ids), "
+               "so afterwards indices == F(tasks) WITHOUT assuming the invariant before -- refresh repairs, clone never inherits a trace; "
+               "clone leaves the original unchanged (frame)")
 LEVEL_TEXT = ("IdxWF is a function of the registered task set only, so 'no trace of removed definitions' is the invariant "
               "itself; register/unregister are proved to preserve it for all task sets and all set iteration orders "
               "(35 + 83 + 22 obligations, z3).")
